@@ -43,6 +43,11 @@ def is_convergence_warning(w) -> bool:
     return "converge" in txt
 
 
+class HarnessBaseFault(BaseException):
+    """base of faults injected by a harness that do NOT derive from Exception (the shape of KeyboardInterrupt /
+    SystemExit / GeneratorExit): `call` treats them as data like any other exception"""
+
+
 def call(fn, *a, **k) -> Outcome:
     """run fn capturing exceptions, stdout and warnings (always-filter)"""
     o = Outcome()
@@ -51,7 +56,7 @@ def call(fn, *a, **k) -> Outcome:
         try:
             with contextlib.redirect_stdout(io.StringIO()):
                 o.value = fn(*a, **k)
-        except Exception as e:  # library exceptions are data, not harness errors
+        except (Exception, HarnessBaseFault) as e:  # library exceptions are data, not harness errors
             o.exc = e
     o.warnings = [(w.category.__name__, str(w.message)[:120]) for w in ws]
     o.warned = any(is_convergence_warning(w) for w in ws)
